@@ -248,10 +248,10 @@ C05_PROBES = [
     ("g_where_struct_bare", "compiles", "D14", "where-clause bound on a parameter that is the type of a struct field",
      "#[derive(Epserde, Debug, Clone, PartialEq)]\npub struct S<A> where A: Clone { pub a: A, pub n: u8 }",
      rt("self::S<Vec<u32>>", "self::S { a: vec![1u32, 2], n: 3 }")),
-    ("g_inline_enum_bare", "compiles", "D16", "inline bound on a parameter that is the type of an enum variant field",
+    ("g_inline_enum_bare", "compiles", "D19", "inline bound on a parameter that is the type of an enum variant field",
      "#[derive(Epserde, Debug, Clone, PartialEq)]\npub enum E<A: Clone> { U, T(A, u8) }",
      rt("self::E<Vec<u32>>", "self::E::T(vec![1u32, 2], 3)")),
-    ("g_where_enum_bare", "compiles", "D16", "where-clause bound on a parameter that is the type of an enum variant field",
+    ("g_where_enum_bare", "compiles", "D19", "where-clause bound on a parameter that is the type of an enum variant field",
      "#[derive(Epserde, Debug, Clone, PartialEq)]\npub enum E<A> where A: Clone { U, S { a: A } }",
      rt("self::E<String>", "self::E::S { a: String::from(\"x\") }")),
     ("g_default_param", "compiles", None, "defaulted type parameter",
